@@ -34,22 +34,22 @@ Definition all_bool : list bool := [true; false].
 Definition all_drv : list driver := [DWsgi; DServerBase].
 
 Definition oexk := option exk.
-Definition sweepF (F : driver -> oexk -> oexk -> oexk -> oexk -> oexk -> oexk -> oexk -> bool -> bool ->
+Definition sweepF (F : driver -> oexk -> oexk -> oexk -> oexk -> oexk -> oexk -> oexk -> oexk -> bool -> bool ->
                        oexk -> oexk -> oexk -> oexk -> bool) : bool :=
   forallb (fun drv =>
-  forallb (fun cr => forallb (fun de => forallb (fun di => forallb (fun ds =>
+  forallb (fun rc => forallb (fun cr => forallb (fun de => forallb (fun di => forallb (fun ds =>
   forallb (fun fn => forallb (fun se => forallb (fun rd =>
   forallb (fun af => forallb (fun dc =>
   forallb (fun a => forallb (fun b => forallb (fun c => forallb (fun d =>
-    F drv cr de di ds fn se rd af dc a b c d)
+    F drv rc cr de di ds fn se rd af dc a b c d)
   all_raise) all_raise) all_raise) all_raise)
   all_bool) all_bool)
   all_oexk) all_raise) all_raise)
-  all_parse) all_parse) all_parse) all_parse)
+  all_parse) all_parse) all_parse) all_parse) all_parse)
   all_drv.
 
-Definition chk (drv : driver) (cr de di ds fn se rd : oexk) (af dc : bool) (a b c d : oexk) : bool :=
-  check_one drv {| sc_create := cr; sc_decomp := de; sc_dispatch := di; sc_deser := ds;
+Definition chk (drv : driver) (rc cr de di ds fn se rd : oexk) (af dc : bool) (a b c d : oexk) : bool :=
+  check_one drv {| sc_recon := rc; sc_create := cr; sc_decomp := de; sc_dispatch := di; sc_deser := ds;
                    sc_fn := fn; sc_ser := se; sc_redirect := rd;
                    sc_after_on_fault := af; sc_doc_early := dc; sc_opaque := false |} a b c d.
 
@@ -72,11 +72,11 @@ Definition check_sb (sc : scen) (a b c d : option exk) : bool :=
     | None => true
     end
   else true.
-Definition chk_sb (drv : driver) (cr de di ds fn se rd : oexk) (af dc : bool) (a b c d : oexk) : bool :=
+Definition chk_sb (drv : driver) (rc cr de di ds fn se rd : oexk) (af dc : bool) (a b c d : oexk) : bool :=
   match drv with
   | DWsgi => true
   | DServerBase =>
-      check_sb {| sc_create := cr; sc_decomp := de; sc_dispatch := di; sc_deser := ds;
+      check_sb {| sc_recon := rc; sc_create := cr; sc_decomp := de; sc_dispatch := di; sc_deser := ds;
                   sc_fn := fn; sc_ser := se; sc_redirect := rd;
                   sc_after_on_fault := af; sc_doc_early := dc; sc_opaque := false |} a b c d
   end.
